@@ -301,6 +301,8 @@ class SK(object):
                 return BUILTINS['deepcopy']
             if imp[1] in ('functools.reduce',):
                 raise Unsupported('functools.reduce')
+            if imp[1] == 'functools.partial':
+                return BUILTINS['partial']
             if imp[1] in ('bisect.bisect_left', 'bisect.bisect_right', 'bisect.bisect'):
                 return BUILTINS[imp[1].split('.')[1]]
             return ModRef('ext:' + imp[1])
@@ -817,6 +819,14 @@ class SK(object):
             else:
                 self.block(n.orelse, env)
             self.block(n.finalbody, env)
+        elif isinstance(n, ast.With):
+            for item in n.items:
+                v = self.ev(item.context_expr, env)
+                if isinstance(v, Bag) and '__enter__' in v._a:
+                    v = self.apply(v._a['__enter__'], [], {}, n, env)
+                if item.optional_vars is not None:
+                    self.bind(item.optional_vars, v, env)
+            self.block(n.body, env)
         elif isinstance(n, ast.FunctionDef):
             env[n.name] = Py(lambda sk, node, *a, _n=n, _env=env, **k: sk.call_local(_n, _env, a, k), 'local')
         elif isinstance(n, ast.Delete):
@@ -939,6 +949,7 @@ BUILTINS = {
     'isinstance': Py(_isinst, 'isinstance'), 'list': Py(lambda sk, n, *a: list(*a), 'list'), 'tuple': Py(lambda sk, n, *a: tuple(*a), 'tuple'),
     'dict': Py(lambda sk, n, *a, **k: dict(*a, **k), 'dict'), 'deepcopy': Py(_deepcopy_tracked, 'deepcopy'),
     'sum': Py(_sum, 'sum'), 'reversed': Py(lambda sk, n, x: list(reversed(x)), 'reversed'), 'sorted': Py(lambda sk, n, x: sorted(x), 'sorted'),
+    'partial': Py(lambda sk, n, f, *a, **k: Py(lambda sk2, n2, *a2, _f=f, _a=a, _k=k, **k2: sk2.apply(_f, list(_a) + list(a2), dict(_k, **k2), n2), 'partial'), 'partial'),
     'set': Py(lambda sk, n, *a: set(*a), 'set'), 'str': Py(lambda sk, n, *a: _str(sk, n, *a), 'str'), 'print': Py(lambda sk, n, *a, **k: None, 'print'),
     'all': Py(lambda sk, n, x: all(x), 'all'), 'any': Py(lambda sk, n, x: any(x), 'any'), 'bool': Py(lambda sk, n, x: bool(x), 'bool'),
     'super': ('super',), 'True': True, 'False': False, 'None': None,
